@@ -457,6 +457,17 @@ func genGenCase(t *rapid.T, prop string) *genCase {
 		}
 		gc.tags = tags
 	}
+	if prop == "C16" || prop == "C17" {
+		// names that are suffixes / prefixes of one another (wf1.go vs f1.go)
+		for i := 1; i < len(gc.pkg.Files); i++ {
+			switch uniform(t, "fname", 4) {
+			case 0:
+				gc.pkg.Files[i].Name = "w" + gc.pkg.Files[i-1].Name
+			case 1:
+				gc.pkg.Files[i].Name = strings.TrimSuffix(gc.pkg.Files[i-1].Name, ".go") + "x.go"
+			}
+		}
+	}
 	if prop == "C16" && uniform(t, "testfile", 3) == 0 {
 		gc.pkg.Files[len(gc.pkg.Files)-1].Name = "x_test.go"
 	}
@@ -715,6 +726,32 @@ func runGenCase(gc *genCase, keepDir *string) *genOutcome {
 			}
 			if o, c, _ := run(mod, 300*time.Second, "go", append(targs, "./p")...); c != 0 {
 				add("C13", "the package with its generated test file does not type-check:\n%s", tailStr(o, 2000))
+			}
+		}
+	}
+
+	// C16: a -file selection writes the selected file's output and nothing else
+	if *flagProp == "C16" && !anyReject && len(gc.pkg.Files) >= 2 {
+		for _, f := range gc.pkg.Files {
+			for _, g := range gc.pkg.Files {
+				os.Remove(filepath.Join(pdir, genName(g.Name)))
+			}
+			b0 := dirSnapshot(mod)
+			if o, c, _ := run(mod, 120*time.Second, *flagCff, gc.cffArgs("-file="+f.Name)...); c != 0 {
+				add("C16", "cff -file=%s failed although the whole package succeeded:\n%s", f.Name, tailStr(o, 800))
+				continue
+			}
+			a0 := dirSnapshot(mod)
+			for p, h := range a0 {
+				if b0[p] == h {
+					continue
+				}
+				if p != filepath.Join("p", genName(f.Name)) {
+					add("C16", "cff -file=%s wrote %s: only %s may be written", f.Name, p, genName(f.Name))
+				}
+			}
+			if _, ok := a0[filepath.Join("p", genName(f.Name))]; !ok {
+				add("C16", "cff -file=%s did not write %s", f.Name, genName(f.Name))
 			}
 		}
 	}
